@@ -345,8 +345,13 @@ theorem Args.symBool_sound (I : Interp) (isOr : Bool) : ∀ (r : Args) (t : Term
   | .cons e r, t => by
       have ihe := Expr.sym_sound I e
       have ihr := Args.symBool_sound I isOr r (e.sym.run I)
-      cases isOr <;> cases htr : I.truth (t.eval I) <;>
-        simp [Args.symBool, Args.evalBool, Tree.run_bind, Q.eval, htr, ihe, ihr] <;> simp [← ihe, ihr]
+      simp only [Args.symBool]
+      split
+      · rename_i b hs
+        have hb : I.truth (t.eval I) = b := by simpa [Q.eval] using Q.static_sound I (Q.truth t) b hs
+        cases isOr <;> cases b <;> simp [Args.evalBool, Tree.run_bind, hb, ihe, ihr] <;> simp [← ihe, ihr]
+      · cases isOr <;> cases htr : I.truth (t.eval I) <;>
+          simp [Args.evalBool, Tree.run_bind, Q.eval, htr, ihe, ihr] <;> simp [← ihe, ihr]
 theorem CmpRest.symChain_sound (I : Interp) : ∀ (r : CmpRest) (t : Term),
     ((CmpRest.symChain t r).run I).eval I = CmpRest.evalChain I (t.eval I) r
   | .last o e, t => by
